@@ -27,16 +27,56 @@ fn build_dir(dir: &std::path::Path) {
     std::os::unix::fs::symlink("../nowhere2", dir.join("sub/dangling2")).unwrap();
 }
 
+thread_local! {
+    /// (prefix of the host directory, prefix of the inner altroot path) that must never show in an error
+    static FOREIGN: std::cell::RefCell<(String, String)> = std::cell::RefCell::new((String::new(), String::new()));
+}
+/// C12 on hostile content: the path an error carries is in the caller's namespace — canonical
+/// ("" or "/"-separated), never the unfilled placeholder, never the host directory, never the
+/// inner path of the altroot. Returns a marker that `check` turns into a failure.
+fn foreign(e: &vfs::VfsError) -> String {
+    let p = e.path().to_string();
+    let (host, inner) = FOREIGN.with(|f| f.borrow().clone());
+    let bad = p == PLACEHOLDER || (!p.is_empty() && !p.starts_with('/')) || (!host.is_empty() && p.contains(&host)) || (!inner.is_empty() && (p == inner || p.starts_with(&format!("{}/", inner))));
+    // the Display text must carry the same path (and never the placeholder)
+    let shown = format!("{}", e);
+    let bad_display = shown.contains(PLACEHOLDER) || !shown.contains(&format!("'{}'", p));
+    if bad || bad_display {
+        format!(" FOREIGN-ERROR-PATH[{}]", p)
+    } else {
+        String::new()
+    }
+}
+/// walk_dir with its error items judged
+fn walk_judged(p: &VfsPath) -> String {
+    match p.walk_dir() {
+        Ok(it) => {
+            let mut n = 0;
+            let mut marks = String::new();
+            for item in it.take(500) {
+                n += 1;
+                if let Err(e) = item {
+                    marks.push_str(&foreign(&e));
+                }
+            }
+            format!("ok {}{}", n, marks)
+        }
+        Err(e) => format!("err {}{}", kind_name(e.kind()), foreign(&e)),
+    }
+}
+
 pub fn run(o: &Opts) -> Report {
     let mut rep = Report::new("hostile");
     let dir = std::path::PathBuf::from(&o.scratch).join(format!("hostile_{}", std::process::id()));
     build_dir(&dir);
     let root = VfsPath::new(PhysicalFS::new(&dir));
+    FOREIGN.with(|f| *f.borrow_mut() = (dir.to_string_lossy().to_string(), String::new()));
     let names = ["", "/plain.txt", "/dangling", "/to_file", "/to_dir", "/to_dir/inner", "/selfloop", "/selfloop/x", "/sub", "/sub/dangling2", "/bad\u{fffd}\u{fffd}name", "/dir\u{fffd}(", "/dir\u{fffd}(/child", "/missing", "/dangling/below"];
     let mut check = |rep: &mut Report, what: String, r: Result<String, String>| {
         rep.evaluations += 1;
         rep.distinct_hash(&format!("{}={:?}", what, r));
         match r {
+            Ok(v) if v.contains("FOREIGN-ERROR-PATH") => rep.fail(Fail { oracle: "prop".into(), signature: format!("phys-hostile:{}:error-path-foreign", what.split('(').next().unwrap_or("?")), what: format!("{}: the error (or an error item of the walk) carries a path outside the caller's namespace, or its Display text does not show the path: {}", what, v), script: vec![what.clone()], impl_out: v.clone(), model_out: String::new() }),
             Ok(v) => rep.count(&format!("outcome:{}", v.split(' ').next().unwrap_or("?"))),
             Err(m) => rep.fail(Fail { oracle: "prop".into(), signature: format!("phys-hostile:{}:panic", what.split('(').next().unwrap_or("?")), what: format!("{} panicked on hostile directory content: {}", what, m), script: vec![what.clone()], impl_out: "panic".into(), model_out: String::new() }),
         }
@@ -44,7 +84,7 @@ pub fn run(o: &Opts) -> Report {
     fn res<T>(r: vfs::VfsResult<T>) -> String {
         match r {
             Ok(_) => "ok".into(),
-            Err(e) => format!("err {}", kind_name(e.kind())),
+            Err(e) => format!("err {}{}", kind_name(e.kind()), foreign(&e)),
         }
     }
     for n in names {
@@ -57,18 +97,15 @@ pub fn run(o: &Opts) -> Report {
         check(&mut rep, format!("is_dir({:?})", n), guarded(|| res(p.is_dir())));
         check(&mut rep, format!("read_dir({:?})", n), guarded(|| match p.read_dir() {
             Ok(it) => format!("ok {}", it.count()),
-            Err(e) => format!("err {}", kind_name(e.kind())),
+            Err(e) => format!("err {}{}", kind_name(e.kind()), foreign(&e)),
         }));
-        check(&mut rep, format!("walk_dir({:?})", n), guarded(|| match p.walk_dir() {
-            Ok(it) => format!("ok {}", it.take(500).count()),
-            Err(e) => format!("err {}", kind_name(e.kind())),
-        }));
+        check(&mut rep, format!("walk_dir({:?})", n), guarded(|| walk_judged(&p)));
         check(&mut rep, format!("open_file({:?})", n), guarded(|| match p.open_file() {
             Ok(mut f) => {
                 let mut v = vec![];
                 format!("ok {:?}", f.read_to_end(&mut v).is_ok())
             }
-            Err(e) => format!("err {}", kind_name(e.kind())),
+            Err(e) => format!("err {}{}", kind_name(e.kind()), foreign(&e)),
         }));
         check(&mut rep, format!("read_to_string({:?})", n), guarded(|| res(p.read_to_string())));
         check(&mut rep, format!("create_dir({:?})", n), guarded(|| res(p.create_dir())));
@@ -94,6 +131,39 @@ pub fn run(o: &Opts) -> Report {
     }
     build_dir(&dir);
     check(&mut rep, "copy_dir(root->/sub/copy)".into(), guarded(|| res(root.join("/to_dir").unwrap().copy_dir(&root.join("/copy_of_to_dir").unwrap()))));
+    // the same content seen through an altroot: the hostile directory is /jail/in of the underlying
+    // filesystem; errors must name the altroot's paths, never /jail/in/…
+    {
+        let outer = std::path::PathBuf::from(&o.scratch).join(format!("hostile_alt_{}", std::process::id()));
+        let _ = std::fs::remove_dir_all(&outer);
+        build_dir(&outer.join("jail/in"));
+        let under = VfsPath::new(PhysicalFS::new(&outer));
+        let aroot = VfsPath::new(vfs::AltrootFS::new(under.join("jail/in").unwrap()));
+        FOREIGN.with(|f| *f.borrow_mut() = (outer.to_string_lossy().to_string(), "/jail".to_string()));
+        for n in ["", "/sub", "/to_dir", "/dangling", "/sub/dangling2", "/selfloop", "/missing", "/dangling/below"] {
+            let p = match aroot.join(n) {
+                Ok(p) => p,
+                Err(_) => continue,
+            };
+            check(&mut rep, format!("alt walk_dir({:?})", n), guarded(|| walk_judged(&p)));
+            check(&mut rep, format!("alt metadata({:?})", n), guarded(|| res(p.metadata())));
+            check(&mut rep, format!("alt read_to_string({:?})", n), guarded(|| res(p.read_to_string())));
+            check(&mut rep, format!("alt copy_dir({:?})", n), guarded(|| res(p.copy_dir(&aroot.join("/copy_out").unwrap()))));
+            let _ = std::fs::remove_dir_all(outer.join("jail/in/copy_out"));
+            let _ = std::fs::remove_file(outer.join("jail/in/copy_out"));
+        }
+        for n in ["", "/sub", "/to_dir"] {
+            build_dir(&outer.join("jail/in"));
+            let p = aroot.join(n).unwrap();
+            if !n.is_empty() {
+                check(&mut rep, format!("alt remove_dir_all({:?})", n), guarded(|| res(p.remove_dir_all())));
+                build_dir(&outer.join("jail/in"));
+                check(&mut rep, format!("alt move_dir({:?})", n), guarded(|| res(p.move_dir(&aroot.join("/moved_out").unwrap()))));
+            }
+        }
+        let _ = std::fs::remove_dir_all(&outer);
+        FOREIGN.with(|f| *f.borrow_mut() = (dir.to_string_lossy().to_string(), String::new()));
+    }
     // async twin
     build_dir(&dir);
     let aroot = AsyncVfsPath::new(AsyncPhysicalFS::new(&dir));
